@@ -45,7 +45,12 @@ def toMessage (m : Spec.Msg) : Message :=
     * codec bits 0 (`attributes mod 8`): the message itself, at its offset;
     * codec 1 (gzip): the messages of the inner set — for a format-0 wrapper with the offsets stored
       inside, for a format-1 wrapper with `wrapper offset − last inner offset + inner offset`;
-    * anything else is not available here. -/
+    * anything else is not judged: codecs 2, 3 (snappy, lz4) are not available here, and codec values
+      4..7 are not defined for message formats 0 and 1.  NOTE the two masks: the protocol's codec field
+      is bits 0–2 (`mod 8`, used here), afkak's `ATTRIBUTE_CODEC_MASK` is `0x03` (`mod 4`, used by the
+      decoder and in the round-trip theorems).  On every attributes byte judged here (`mod 8 ∈ {0, 1}`)
+      the two agree (`C05_codec_mask_agree`); with bit 2 set (afkak would read 5 as gzip, 4 as plain)
+      the verdict is out-of-range. -/
 def expandWith (openWrapper : Int → Spec.Msg → Option (List (Int × Spec.Msg))) :
     List (Int × Spec.Msg) → Option (List (Int × Spec.Msg))
   | [] => some []
